@@ -12,18 +12,12 @@ the design model explains every observed call (ModelFollows, drift only).
 
 from __future__ import annotations
 
-from harness.core import Ctx, parallel_map
+from harness.core import Ctx
 from harness.tlc import MachineryError
 
 QUERY = ("tq", "sq")
 GETTER = {"fit": "get_fitness_for", "isc": "get_is_covered", "cov": "get_coverage_for",
           "fitsum": "get_fitness", "covmean": "get_coverage"}
-
-
-def _replay_one(item):
-    from harness.adapters import cache as ad
-    beh, seed = item
-    return ad.replay(beh, seed)
 
 
 # --------------------------------------------------------------------------------------
@@ -155,25 +149,29 @@ def run(ctx: Ctx) -> None:
                               workers=8 if q else "auto")
 
     def _sim():
-        return ctx.simulate("MC_Cache", "MC_Cache_sim.cfg", num=150 if q else 6000, depth=20 if q else 40)
+        return ctx.simulate("MC_Cache", "MC_Cache_sim.cfg", num=150 if q else 1500, depth=20 if q else 30)
 
+    faults = ("all", "size_check", "agg_over_cache", "flag_reset", "silent_restore")
     with ThreadPoolExecutor(max_workers=3) as ex:
         f1, f2, f3 = ex.submit(_design), ex.submit(_mc), ex.submit(_sim)
+        extra = {}
+        if not q:
+            # random deep behaviours of the repaired design; and the model of the code as it is (all
+            # four defects, and each alone) must violate the property: the model is not vacuous about
+            # the known findings
+            extra["sim"] = ex.submit(lambda: ctx.design("Cache", "Cache_sim.cfg", simulate="num=400", depth=30,
+                                                        workers=1))
+            for fault in faults:
+                extra[fault] = ex.submit(lambda f=fault: ctx.design("Cache", "Cache_asis.cfg", expect_ok=False,
+                                                                    env={"C12_FAULTS": f}, workers=4))
         r1, emitted, sims = f1.result(), f2.result(), f3.result()
+        done = {k: f.result() for k, f in extra.items()}
     ctx.notes["design_repaired_states"] = r1.distinct
     if not q:
-        # random deep behaviours of the repaired design, and the code as it is must violate the
-        # property in the model too (the model is not vacuous about the known defects)
-        ctx.design("Cache", "Cache_sim.cfg", simulate="num=3000", depth=40, workers=1)
-        asis = ctx.design("Cache", "Cache_asis.cfg", expect_ok=False, env={"C12_FAULTS": "all"})
-        per_fault = {"all": sorted({v.name for v in asis.violations})}
-        for fault in ("size_check", "agg_over_cache", "flag_reset", "silent_restore"):
-            r = ctx.design("Cache", "Cache_asis.cfg", expect_ok=False, env={"C12_FAULTS": fault})
-            per_fault[fault] = sorted({v.name for v in r.violations})
+        per_fault = {f: sorted({v.name for v in done[f].violations}) for f in faults}
         ctx.notes["design_with_code_defects_violates"] = per_fault
-        if not per_fault["all"]:
-            raise MachineryError("the model of the code as it is does not violate C12: model and known "
-                                 "findings disagree")
+        if not all(per_fault.values()):
+            raise MachineryError(f"the model of the code as it is does not violate C12 for some defect: {per_fault}")
 
     def is_bad(p):
         return bool(p) and bool(p.get("stale") or (p.get("raised") and p.get("reg")))
@@ -189,31 +187,39 @@ def run(ctx: Ctx) -> None:
     ctx.notes["model_states_reached_by_a_query"] = len(emitted)
     ctx.notes["distinct_call_sequences"] = len(seqs)
     ctx.notes["model_predicted_defect_sequences"] = sum(is_bad(b["pred"]) for b in seqs.values())
-    reps = 1 if q else 4
+    reps = 1 if q else 2
     chosen = sorted(seqs)
-    if q:
-        # quick tier: every sequence on which the model predicts a defect, one sequence per shape
-        # (calls, query kinds and targets; function ids and registration ignored), then a
-        # deterministic fill-up; the thorough tier replays all of them
-        import hashlib
+    # Which of the enumerated sequences are replayed.  Always: every sequence on which the model
+    # predicts a defect, every sequence of the focus and pattern modes, one sequence per shape
+    # (calls and query kinds; slots, function ids and registration ignored).  Of the remaining
+    # sequences of the broad modes "T"/"S" the quick tier takes a deterministic fill-up to a budget;
+    # the thorough tier takes all but the deepest layer, of which it takes a deterministic part.
+    import hashlib
 
-        def h(key):
-            return hashlib.sha1(f"{ctx.seed}/{key}".encode()).hexdigest()
+    def h(key):
+        return hashlib.sha1(f"{ctx.seed}/{key}".encode()).hexdigest()
 
-        def shape(b):
-            return (b["ip"]["mode"], tuple((a["op"], a["k"]) for a in b["hist"]))
-        budget = 6000
-        pick = {k for k in chosen if is_bad(seqs[k]["pred"]) or seqs[k]["ip"]["mode"] not in ("T", "S")}
-        by_shape: dict = {}
-        for k in sorted(chosen, key=h):
-            by_shape.setdefault(shape(seqs[k]), k)
-        pick |= set(by_shape.values())
-        for k in sorted(chosen, key=h):
-            if len(pick) >= budget:
-                break
-            pick.add(k)
-        ctx.notes["quick_tier_sample"] = f"{len(pick)} of {len(chosen)} call sequences ({len(by_shape)} shapes)"
-        chosen = sorted(pick)
+    def shape(b):
+        return (b["ip"]["mode"], tuple((a["op"], a["k"]) for a in b["hist"]))
+    budget = 6000 if q else 42000
+    broad = ("T", "S")
+    deepest = {m: max((len(seqs[k]["hist"]) for k in chosen if seqs[k]["ip"]["mode"] == m), default=0)
+               for m in broad}
+    pick = {k for k in chosen if is_bad(seqs[k]["pred"]) or seqs[k]["ip"]["mode"] not in broad}
+    by_shape: dict = {}
+    for k in sorted(chosen, key=h):
+        by_shape.setdefault(shape(seqs[k]), k)
+    pick |= set(by_shape.values())
+    if not q:
+        pick |= {k for k in chosen if len(seqs[k]["hist"]) < deepest.get(seqs[k]["ip"]["mode"], 0)}
+    for k in sorted(chosen, key=h):
+        if len(pick) >= budget:
+            break
+        pick.add(k)
+    ctx.notes["replayed_sample"] = (f"{len(pick)} of {len(chosen)} call sequences ({len(by_shape)} shapes; "
+                                    f"all of the focus/pattern modes and all model-predicted defects)")
+    ctx.exhaustive = len(pick) == len(chosen)
+    chosen = sorted(pick)
     behs = []
     for key in chosen:
         b = seqs[key]
@@ -228,10 +234,11 @@ def run(ctx: Ctx) -> None:
         b["k"] = k
     ctx.notes["replays_from_exhaustive_extraction"] = n_exh
     ctx.notes["replays_from_simulation"] = len(behs) - n_exh
-    ctx.exhaustive = not q
 
-    # 3. replay on the real code
-    traces = parallel_map(_replay_one, [(b, ctx.seed) for b in behs], chunksize=32)
+    # 3. replay on the real code (import and set up before forking the workers)
+    from harness.adapters import cache as ad
+    ad.env()
+    traces = [ad.replay(b, ctx.seed) for b in behs]  # ~1.5 ms each; a fork pool is slower here
     ctx.evaluations = sum(len(t["ev"]) for t in traces)
     ends: dict[str, int] = {}
     skipped = 0
@@ -264,7 +271,7 @@ def run(ctx: Ctx) -> None:
 
     # 4. TLC evaluates the clauses on the recorded traces
     payload = [{"w0": t["w0"], "ev": t["ev"]} for t in traces]
-    verdicts = ctx.validate("CacheTrace", payload, chunk=max(500, -(-len(payload) // 3)))
+    verdicts = ctx.validate("CacheTrace", payload, chunk=max(500, -(-len(payload) // 3)), workers=1 if q else 4)
     confirmed = 0
     drifting = []
     for idx, bad in sorted(verdicts.items()):
